@@ -11,12 +11,16 @@ import (
 )
 
 // TickerCase drives the REAL consensus timeout ticker with a generated sequence of ScheduleTimeout calls and
-// compares what it fires with the virtual ticker the simulator uses (same sequence): a schedule for a later
-// height/round/step must be armed and fire, an older or equal one must be ignored. This both validates the
-// simulator's ticker model (trusted base of C04) and catches defects of the real ticker that the simulator,
-// which substitutes its own ticker, cannot see.
-// Wall-clock is used only to wait: "must fire" waits up to 60 s for a 1 ms timer (a timeout of the wait is a
-// violation only then); "must be ignored" is judged by an arrival, never by its absence.
+// compares what it fires with the virtual ticker the simulator uses (same sequence). What liveness needs from the
+// ticker is judged: a schedule for a later height/round/step than everything before must fire unless an even later
+// one supersedes it - also when a stale schedule arrives while it is pending - and the ticker must not fire a
+// timeout nobody scheduled. A STALE timeout that fires (an older schedule, or the ticker's initial empty value: the
+// constructor's time.NewTimer(0) + Stop can leave one tick behind) is counted, not judged: handleTimeout ignores
+// timeouts older than the state, so they cannot hurt the property. This both validates the simulator's ticker model
+// (trusted base of C04) and catches defects of the real ticker that the simulator, which substitutes its own
+// ticker, cannot see.
+// Wall-clock is used only to wait: "must fire" waits up to 60 s for a 1 ms / 150 ms timer and only the expiry of
+// that wait is a violation; nothing is concluded from the absence of an event within a short time.
 func TickerCase(c *core.Case) {
 	r, run := c.R, c.Run
 	real := consensus.NewTimeoutTicker()
@@ -25,9 +29,46 @@ func TickerCase(c *core.Case) {
 	model := NewVTicker()
 	h, rd, st := uint64(1), uint32(1), cstypes.RoundStepNewHeight
 	var script []string
-	steps := 12 + r.Intn(25)
-	for i := 0; i < steps; i++ {
-		// next schedule: mostly forward along the protocol's own order, sometimes stale
+	empty := *consensus.EmptyTimeoutInfo()
+	scheduled := map[string]bool{}
+	id := func(t consensus.VerifTimeoutInfo) string { return fmt.Sprintf("%d/%d/%v", t.Height, t.Round, t.Step) }
+	older := func(a, b consensus.VerifTimeoutInfo) bool { // a strictly before b
+		if a.Height != b.Height {
+			return a.Height < b.Height
+		}
+		if a.Round != b.Round {
+			return a.Round < b.Round
+		}
+		return a.Step < b.Step
+	}
+	// expect waits until the real ticker fires want; stale timeouts are skipped (counted), others are violations
+	expect := func(want consensus.VerifTimeoutInfo, key, why string) bool {
+		deadline := time.After(60 * time.Second)
+		for {
+			select {
+			case got := <-real.Chan():
+				if got.Height == want.Height && got.Round == want.Round && got.Step == want.Step {
+					run.Count("ticker_timeouts_fired_as_expected", 1)
+					return true
+				}
+				g := consensus.VerifTimeoutInfo{Height: got.Height, Round: got.Round, Step: got.Step}
+				if (scheduled[id(g)] || id(g) == id(empty)) && older(g, want) {
+					run.Count("ticker_stale_timeouts_fired_not_judged", 1)
+					if id(g) == id(empty) {
+						run.Count("ticker_initial_empty_timeout_fired", 1)
+					}
+					script = append(script, "  (stale timeout "+id(g)+" fired: the state machine ignores it)")
+					continue
+				}
+				c.Violation("ticker:fired-unscheduled-timeout", fmt.Sprintf("waiting for %s the ticker fired %s, which was never scheduled or is later than everything scheduled", id(want), id(g)), script)
+				return false
+			case <-deadline:
+				c.Violation(key, fmt.Sprintf("a timeout for %s %s never fired (waited 60 s)", id(want), why), script)
+				return false
+			}
+		}
+	}
+	next := func() (uint64, uint32, cstypes.RoundStepType) {
 		nh, nr, ns := h, rd, st
 		switch x := r.Intn(10); {
 		case x < 4: // next step in the round
@@ -54,37 +95,95 @@ func TickerCase(c *core.Case) {
 				nh--
 			}
 		}
-		ti := consensus.VerifTimeoutInfo{Duration: time.Millisecond, Height: nh, Round: nr, Step: ns}
-		before, _ := model.Pending()
-		model.take()
+		return nh, nr, ns
+	}
+	sched := func(ti consensus.VerifTimeoutInfo) (armed bool) {
 		model.ScheduleTimeout(ti)
-		after, armed := model.Pending()
-		_ = before
+		p, ok := model.Pending()
+		armed = ok && p.Height == ti.Height && p.Round == ti.Round && p.Step == ti.Step && p.Duration == ti.Duration
+		scheduled[id(ti)] = true
 		real.ScheduleTimeout(ti)
 		run.Eval(1)
-		desc := fmt.Sprintf("%d/%d/%v", nh, nr, ns)
-		if armed && after == ti {
-			script = append(script, "schedule "+desc+" -> must fire")
-			select {
-			case got := <-real.Chan():
-				if got.Height != nh || got.Round != nr || got.Step != ns {
-					c.Violation("ticker:fired-another-timeout", fmt.Sprintf("scheduled %s, the ticker fired %d/%d/%v", desc, got.Height, got.Round, got.Step), script)
-					return
-				}
-				run.Count("ticker_timeouts_fired_as_expected", 1)
-			case <-time.After(60 * time.Second):
-				c.Violation("ticker:later-timeout-not-armed", fmt.Sprintf("a timeout for %s, later than everything scheduled before, never fired (1 ms timer, waited 60 s)", desc), script)
+		return armed
+	}
+	steps := 12 + r.Intn(25)
+	for i := 0; i < steps; i++ {
+		nh, nr, ns := next()
+		mode := r.Intn(4)
+		dur := time.Millisecond
+		if mode >= 2 {
+			dur = 150 * time.Millisecond // stays pending while the next schedule arrives
+		}
+		ti := consensus.VerifTimeoutInfo{Duration: dur, Height: nh, Round: nr, Step: ns}
+		model.take() // whatever was pending has fired (we waited for it) or is superseded below
+		if !sched(ti) {
+			script = append(script, "schedule "+id(ti)+" (stale: the model ignores it)")
+			run.Count("ticker_stale_schedules", 1)
+			continue
+		}
+		h, rd, st = nh, nr, ns
+		switch {
+		case mode < 2:
+			script = append(script, "schedule "+id(ti)+" -> must fire")
+			if !expect(ti, "ticker:later-timeout-not-armed", "later than everything scheduled before") {
 				return
 			}
-			h, rd, st = nh, nr, ns
-		} else {
-			script = append(script, "schedule "+desc+" -> must be ignored")
-			select {
-			case got := <-real.Chan():
-				c.Violation("ticker:stale-timeout-fired", fmt.Sprintf("a stale schedule for %s made the ticker fire %d/%d/%v", desc, got.Height, got.Round, got.Step), script)
+		case mode == 2:
+			// a stale schedule arrives while ti is pending: ti must still fire
+			sh, sr, ss := h, rd, st
+			switch r.Intn(3) {
+			case 0:
+				if ss > cstypes.RoundStepNewHeight {
+					ss = cstypes.RoundStepType(1 + r.Intn(int(ss)-1+1))
+					if ss >= st {
+						ss = st - 1
+					}
+				}
+			case 1:
+				if sr > 1 {
+					sr--
+					ss = cstypes.RoundStepPrecommitWait
+				}
+			default:
+				if sh > 1 {
+					sh--
+					sr = rd + 1
+				}
+			}
+			stale := consensus.VerifTimeoutInfo{Duration: time.Millisecond, Height: sh, Round: sr, Step: ss}
+			if sched(stale) {
+				// not stale after all (nothing earlier exists at the start): it superseded ti
+				script = append(script, "schedule "+id(ti)+" (150 ms), then "+id(stale)+" -> the second must fire")
+				h, rd, st = sh, sr, ss
+				if !expect(stale, "ticker:later-timeout-not-armed", "later than everything scheduled before") {
+					return
+				}
+				break
+			}
+			script = append(script, "schedule "+id(ti)+" (150 ms), then stale "+id(stale)+" while it is pending -> the first must still fire")
+			run.Count("ticker_stale_schedules_while_pending", 1)
+			if !expect(ti, "ticker:pending-timeout-lost-after-stale-schedule", "pending when a stale schedule arrived,") {
 				return
-			case <-time.After(30 * time.Millisecond):
-				run.Count("ticker_stale_schedules_ignored", 1)
+			}
+		default:
+			// a later schedule supersedes the pending one
+			lh, lr, ls := h, rd+1, cstypes.RoundStepPropose
+			if r.Intn(3) == 0 {
+				lh, lr, ls = h+1, 1, cstypes.RoundStepNewHeight
+			} else if st < cstypes.RoundStepPrecommitWait && r.Intn(2) == 0 {
+				lh, lr, ls = h, rd, st+1
+			}
+			later := consensus.VerifTimeoutInfo{Duration: time.Millisecond, Height: lh, Round: lr, Step: ls}
+			model.take()
+			if !sched(later) {
+				run.Inconclusive("ticker model ignored a later schedule " + id(later) + " after " + id(ti))
+				return
+			}
+			script = append(script, "schedule "+id(ti)+" (150 ms), then later "+id(later)+" -> the later one must fire")
+			run.Count("ticker_pending_superseded", 1)
+			h, rd, st = lh, lr, ls
+			if !expect(later, "ticker:later-timeout-not-armed", "superseding a pending earlier one,") {
+				return
 			}
 		}
 	}
